@@ -26,8 +26,8 @@ RULE = ("case = (method, constraint-kind assignment, mask/options variant); non-
 ASSUMPTIONS = ["test points closer than 1e-7 to a constraint boundary are skipped", "a problem without any finite variable bound may be passed with bounds=None"]
 EXHAUSTIVE = {"quick": True, "thorough": True}
 BOUNDS = {"quick": {"max_nonlinear": 2, "max_linear": 2}, "thorough": {"max_nonlinear": 3, "max_linear": 3}}
-REQUIRED = {"quick": {"captured_problems": 1861, "points_compared": 38084, "jacobians_checked": 3000, "max_iterations_checked": 1000, "rejected_combinations": 2000, "masked_problems": 800, "options_not_dict_checked": 500, "option_plumbing_cases": 80, "__nontrivial__": 1861},
-            "thorough": {"captured_problems": 47338, "points_compared": 1193908, "jacobians_checked": 100000, "max_iterations_checked": 30000, "rejected_combinations": 100000, "masked_problems": 30000, "options_not_dict_checked": 15000, "option_plumbing_cases": 800, "__nontrivial__": 45000}}
+REQUIRED = {"quick": {"captured_problems": 1861, "points_compared": 38084, "jacobians_checked": 3000, "max_iterations_checked": 1000, "rejected_combinations": 2000, "masked_problems": 800, "options_not_dict_checked": 500, "option_plumbing_cases": 80, "with_output_directory": 500, "__nontrivial__": 1861},
+            "thorough": {"captured_problems": 47338, "points_compared": 1193908, "jacobians_checked": 100000, "max_iterations_checked": 30000, "rejected_combinations": 100000, "masked_problems": 30000, "options_not_dict_checked": 15000, "option_plumbing_cases": 800, "with_output_directory": 12000, "__nontrivial__": 45000}}
 METHODS = ["slsqp", "cobyla", "l-bfgs-b", "tnc", "nelder-mead", "powell", "bfgs", "cg", "newton-cg", "differential_evolution", "scipy/default"]
 KINDS = ["eq", "lower", "upper", "two", "free"]
 V = 3
@@ -54,6 +54,21 @@ def _bound(kind, rng):
         a = float(np.round(rng.choice([-1.0, 1.0]) * 10 ** rng.uniform(2, 6), 1))
         w = float(np.round(10 ** rng.uniform(-2, 1), 3))
     return {"eq": (a, a), "lower": (a, np.inf), "upper": (-np.inf, a), "two": (a, a + w), "free": (-np.inf, np.inf)}[kind]
+
+
+_OUTDIR = None
+
+
+def _outdir():
+    global _OUTDIR  # noqa: PLW0603
+    if _OUTDIR is None:
+        import atexit  # noqa: PLC0415
+        import shutil  # noqa: PLC0415
+        import tempfile  # noqa: PLC0415
+
+        _OUTDIR = tempfile.mkdtemp(prefix="verif_c08_")
+        atexit.register(shutil.rmtree, _OUTDIR, ignore_errors=True)
+    return _OUTDIR
 
 
 def run_case(case, obs):
@@ -126,6 +141,10 @@ def run_case(case, obs):
         opt["max_iterations"] = maxit
     if tolv is not None:
         opt["tolerance"] = tolv
+    if rng.random() < 0.3:
+        # an output directory for the back-end (it switches the back-end's display on): every other setting stays what it is
+        opt["output_dir"] = _outdir()
+        obs.count("with_output_directory")
     types = None
     if rng.random() < 0.3:
         types = [int(t) for t in rng.integers(1, 3, size=V)]
